@@ -233,17 +233,24 @@ func verifC22Write(args []string) (res string) {
 // the reader receives is reported NAL unit by NAL unit (short ones in full, long ones as first byte + length),
 // and after every op the parameters reported by OutDescCopy().
 
+type verifC22AAUnit struct {
+	short string // NAL unit by NAL unit, long ones abbreviated
+	full  string // canonical payload
+}
+
 type verifC22AA struct {
 	codec string
 	strm  *Stream
 	rd    *Reader
 	pub   *SubStream
 	mu    sync.Mutex
-	units []string
-	full  chan string // publisher units: full canonical payload
+	units []verifC22AAUnit
 }
 
 var verifC22aa *verifC22AA
+
+// only a guard against a broken implementation; nothing on the unchanged tree depends on it
+const verifC22Guard = 60 * time.Second
 
 func verifC22AAClose() {
 	a := verifC22aa
@@ -282,36 +289,53 @@ func verifC22ShortAU(au [][]byte) string {
 	return strings.Join(s, ",")
 }
 
-func (a *verifC22AA) answer(min int, d time.Duration) string {
-	dl := time.Now().Add(d)
-	for {
-		a.mu.Lock()
-		n := len(a.units)
-		a.mu.Unlock()
-		if n >= min || time.Now().After(dl) {
-			break
+// barrier: a marker callback is pushed into the reader's own queue; when it has run, every unit that was
+// written before this call has been handed to the reader callback.  No sleeping, no timing assumption.
+func (a *verifC22AA) barrier() bool {
+	done := make(chan struct{})
+	dl := time.Now().Add(verifC22Guard)
+	for !a.rd.buffer.Push(func() error { close(done); return nil }) {
+		if time.Now().After(dl) {
+			return false
 		}
-		time.Sleep(500 * time.Microsecond)
+		time.Sleep(100 * time.Microsecond) // queue full: the reader goroutine is draining it
 	}
+	select {
+	case <-done:
+		return true
+	case <-time.After(verifC22Guard):
+		return false
+	}
+}
+
+func (a *verifC22AA) takeUnits() []verifC22AAUnit {
 	a.mu.Lock()
+	defer a.mu.Unlock()
 	us := a.units
 	a.units = nil
-	a.mu.Unlock()
-	if len(us) < min {
-		return "timeout"
+	return us
+}
+
+func (a *verifC22AA) desc() string {
+	return verifC22FmtParams(a.strm.OutDescCopy().Medias[0].Formats[0])
+}
+
+func verifC22AAShorts(us []verifC22AAUnit) string {
+	if len(us) == 0 {
+		return "-"
 	}
-	u := "-"
-	if len(us) != 0 {
-		u = strings.Join(us, "|")
+	s := make([]string, len(us))
+	for i, u := range us {
+		s[i] = u.short
 	}
-	return "un=" + u + " p=" + verifC22FmtParams(a.strm.OutDescCopy().Medias[0].Formats[0])
+	return strings.Join(s, "|")
 }
 
 func verifC22AAExec(f []string) string {
 	if f[0] == "reset" {
 		verifC22Close()
 		verifC22AAClose()
-		a := &verifC22AA{codec: f[1], full: make(chan string, 16)}
+		a := &verifC22AA{codec: f[1]}
 		// oracle columns: the parameter sets of the built-in offline description
 		if strings.Join(f[3:], " ") != strings.Join(verifC22OfflineParams(a.codec), " ") {
 			return "stale-oracle"
@@ -335,6 +359,7 @@ func verifC22AAExec(f []string) string {
 		m := a.strm.OrigDesc.Medias[0]
 		a.rd.OnData(m, m.Formats[0], func(u *unit.Unit) error {
 			var au [][]byte
+			full := "nil"
 			if !u.NilPayload() {
 				switch p := u.Payload.(type) {
 				case unit.PayloadH264:
@@ -342,21 +367,11 @@ func verifC22AAExec(f []string) string {
 				case unit.PayloadH265:
 					au = p
 				}
+				full = verifC22FmtPayload(u.Payload)
 			}
 			a.mu.Lock()
-			pubActive := a.pub != nil
-			a.units = append(a.units, verifC22ShortAU(au))
+			a.units = append(a.units, verifC22AAUnit{short: verifC22ShortAU(au), full: full})
 			a.mu.Unlock()
-			if pubActive {
-				out := "nil"
-				if !u.NilPayload() {
-					out = verifC22FmtPayload(u.Payload)
-				}
-				select {
-				case a.full <- out:
-				default:
-				}
-			}
 			return nil
 		})
 		a.strm.AddReader(a.rd)
@@ -369,8 +384,35 @@ func verifC22AAExec(f []string) string {
 	}
 	switch f[0] {
 	case "aafill":
-		return a.answer(verifutil.Atoi(f[1]), 5*time.Second)
+		// wait until the offline sub stream has delivered n more units.  Only meaningful while the offline sub
+		// stream is the current one (the shrinker may produce the other case: nobody would ever write).
+		if a.pub != nil {
+			return "bad-op"
+		}
+		n := verifutil.Atoi(f[1])
+		var got []verifC22AAUnit
+		dl := time.Now().Add(verifC22Guard)
+		for {
+			got = append(got, a.takeUnits()...)
+			k := 0
+			for _, u := range got {
+				if u.short != "n" {
+					k++
+				}
+			}
+			if k >= n {
+				break
+			}
+			if time.Now().After(dl) {
+				return "timeout"
+			}
+			time.Sleep(200 * time.Microsecond) // waiting for an event that must happen, not for a duration
+		}
+		return "un=" + verifC22AAShorts(got) + " p=" + a.desc()
 	case "aapub":
+		if a.pub != nil {
+			return "bad-op" // the core never replaces a publisher by a publisher without going offline first
+		}
 		var in format.Format
 		if a.codec == "h264" {
 			in = &format.H264{PayloadTyp: 96, PacketizationMode: 1, SPS: verifC22Param(f[1]), PPS: verifC22Param(f[2])}
@@ -382,59 +424,57 @@ func verifC22AAExec(f []string) string {
 			InDesc:        &description.Session{Medias: []*description.Media{{Type: description.MediaTypeVideo, Formats: []format.Format{in}}}},
 			UseRTPPackets: false,
 		}
-		// units reported here were written by the offline sub stream, i.e. before the switch
+		// Initialize() first stops the offline sub stream and waits for its goroutine: every unit reported here
+		// (but the new sub stream's own parameter-transfer unit, which has a nil payload) was written BEFORE the switch
 		if err := pub.Initialize(); err != nil {
 			return "err-subinit"
 		}
-		res := a.answer(0, 0)
-		// the transfer unit of the new sub stream (nil payload) may arrive later: it carries nothing
-		a.mu.Lock()
+		if !a.barrier() {
+			return "stuck"
+		}
 		a.pub = pub
-		a.mu.Unlock()
-		return res
+		return "un=" + verifC22AAShorts(a.takeUnits()) + " p=" + a.desc()
 	case "aau":
-		a.mu.Lock()
-		pub := a.pub
-		a.mu.Unlock()
-		if pub == nil {
+		if a.pub == nil {
 			return "bad-op"
 		}
-		for len(a.full) > 0 {
-			<-a.full
-		}
-		time.Sleep(time.Millisecond) // let a late transfer unit pass
-		for len(a.full) > 0 {
-			<-a.full
-		}
-		m := pub.InDesc.Medias[0]
-		res := "timeout"
+		a.takeUnits()
+		m := a.pub.InDesc.Medias[0]
+		res := ""
 		func() {
 			defer func() {
 				if r := recover(); r != nil {
 					res = "panic"
 				}
 			}()
-			pub.WriteUnit(m, m.Formats[0], &unit.Unit{PTS: 90000, Payload: verifC22Payload(a.codec, f[1:])})
-			select {
-			case out := <-a.full:
-				res = "out=" + out + " p=" + verifC22FmtParams(a.strm.OutDescCopy().Medias[0].Formats[0])
-			case <-time.After(5 * time.Second):
-			}
+			a.pub.WriteUnit(m, m.Formats[0], &unit.Unit{PTS: 90000, Payload: verifC22Payload(a.codec, f[1:])})
 		}()
-		a.mu.Lock()
-		a.units = nil
-		a.mu.Unlock()
-		return res
+		if res != "" {
+			return res
+		}
+		if !a.barrier() {
+			return "stuck"
+		}
+		us := a.takeUnits()
+		switch len(us) {
+		case 0:
+			return "dropped" // writeUnitInner returned an error (e.g. the RTP encoder refused the unit)
+		case 1:
+			return "out=" + us[0].full + " p=" + a.desc()
+		}
+		return fmt.Sprintf("delivered-%d-units", len(us))
 	case "aaoff":
-		a.mu.Lock()
+		if a.pub == nil {
+			return "bad-op"
+		}
 		a.pub = nil
-		a.units = nil
-		a.mu.Unlock()
+		a.takeUnits()
 		if err := a.strm.StartOfflineSubStream(); err != nil {
 			return "err-offline"
 		}
-		// units reported here are written by the NEW offline sub stream
-		return a.answer(0, 0)
+		// whatever arrives from now on is written by the NEW offline sub stream (how many units have arrived
+		// already depends on the scheduler: the verdict is per unit, not per count)
+		return "un=" + verifC22AAShorts(a.takeUnits()) + " p=" + a.desc()
 	}
 	return "bad-op"
 }
